@@ -3337,8 +3337,8 @@ class PyCdlib:
 
         return num_bytes_to_add
 
-    def _check_new_joliet_udf_paths(self, joliet_path, udf_path):
-        # type: (Optional[str], Optional[str]) -> None
+    def _check_new_joliet_udf_paths(self, joliet_path, udf_path, empty_is_none=True):
+        # type: (Optional[str], Optional[str], bool) -> None
         """
         An internal method to check, before anything on the ISO is changed,
         that new entries can be created at the given Joliet and UDF paths.
@@ -3348,9 +3348,16 @@ class PyCdlib:
         Parameters:
          joliet_path - The Joliet path of the new entry, if any.
          udf_path - The UDF path of the new entry, if any.
+         empty_is_none - Whether the caller goes on to treat an empty path like
+                         no path at all (otherwise it is refused here, like any
+                         other path that does not start with a slash).
         Returns:
          Nothing.
         """
+        if not empty_is_none:
+            if (joliet_path is not None and not joliet_path) or (udf_path is not None and not udf_path):
+                raise pycdlibexception.PyCdlibInvalidInput('Must be a path starting with /')
+
         if joliet_path:
             if self.joliet_vd is None:
                 raise pycdlibexception.PyCdlibInvalidInput('A Joliet path can only be specified for a Joliet ISO')
@@ -4968,7 +4975,7 @@ class PyCdlib:
         if file_mode is None:
             file_mode = 0o040555
 
-        self._check_new_joliet_udf_paths(joliet_path, udf_path)
+        self._check_new_joliet_udf_paths(joliet_path, udf_path, empty_is_none=False)
 
         num_bytes_to_add = 0
         if iso_path is not None:
@@ -5669,7 +5676,7 @@ class PyCdlib:
 
         # The symlink is added to one filesystem after the other, so make sure
         # up front that the Joliet and UDF parts are possible.
-        self._check_new_joliet_udf_paths(joliet_path, udf_symlink_path)
+        self._check_new_joliet_udf_paths(joliet_path, udf_symlink_path, empty_is_none=False)
 
         symlink_bytearray = bytearray()
         if udf_symlink_path is not None and udf_target is not None:
